@@ -284,6 +284,7 @@ def run(ctx):
     width_accounting(ctx, "R07-e")
     per_line_reset(ctx, "R07-f")
     skipped_ranges_per_file(ctx, "R07-g")
+    merge_keeps_every_diagnostic(ctx, "R07-h")
     # with R06-b: operational ⇒ exit 1
     import c06
     c06.exit_code_tables(ctx, "R07-d")
@@ -407,3 +408,31 @@ def skipped_ranges_per_file(ctx, rid):
                         "files exempt lines of this one from the width / trailing-blank checks" % (sorted(map(str, sf))[:4], own, foreign),
                         [c.loc()])
     r.floor(rid, n, 1, "format_lines calls in format_file")
+
+
+def merge_keeps_every_diagnostic(ctx, rid):
+    """R07-h: collecting the diagnostics of a file does not filter them"""
+    p, r = ctx.p, ctx.r
+    r.rule(rid, "FormatReport::append (with the closures it owns) stores the whole vector it is given: it either reads no field of "
+                "FormattingError at all (Vec::append / or_insert move the elements blindly), or, if it discriminates between "
+                "errors, the fields it compares include `kind` and `line` — two diagnostics of different kinds on one line are "
+                "two facts about the output (too wide *and* ends in a blank) and both are reported")
+    f = p.named("append", within="FormatReport")
+    if f is None:
+        r.undecidable(rid, "FormatReport::append not found")
+        return
+    fns = [f] + [g for g in p.by_crate["rustfmt_nightly"] if g.kind == "Closure" and g.id.startswith(f.id + "::")]
+    fields = set()
+    for g in fns:
+        for (adt, var, fld, mode, bb, line) in g.field_accesses():
+            if adt and adt.endswith("formatting::FormattingError"):
+                fields.add(str(fld))
+    ok = not fields or {"kind", "line"} <= fields
+    r.instance(rid, "FormatReport::append reads FormattingError fields %s" % sorted(fields), "ok" if ok else "violation",
+               "%s:%d" % (f.file, f.line), "%d bodies" % len(fns))
+    if not ok:
+        r.violation(rid, "FormatReport::append discriminates diagnostics without comparing their kind and line",
+                    "it reads %s of the errors it merges but not %s: a diagnostic is dropped because another one of a different kind "
+                    "(or on a different line) is already recorded" % (sorted(fields), sorted({"kind", "line"} - fields)),
+                    ["%s:%d" % (f.file, f.line)])
+    r.floor(rid, len(fns), 1, "bodies of FormatReport::append")
